@@ -7,7 +7,7 @@ tables. IN / NOT IN sub-queries read a different table than the outer statement.
 """
 from decimal import InvalidOperation
 
-from .. import engine, gen, ir, model, monitors
+from .. import engine, gen, ir, ledgers, model, monitors
 from ..ir import T_INT, T_DEC, T_STR, T_DATE, T_BOOL, T_OBJ
 from ..values import same_rows, first_row_diff, show, show_rows
 
@@ -543,10 +543,47 @@ def run_cursor_case(ctx, rng, n, mon):
             return
 
 
+DESCRIPTION_INNERS = [
+    'SELECT account AS a, NULL AS n, number AS x FROM #postings', 'SELECT coalesce(NULL, NULL) AS n, account FROM #postings',
+    'SELECT DISTINCT account, NULL AS n FROM #postings ORDER BY account LIMIT 5', 'SELECT date, payee, tags, meta, entry FROM #postings',
+    'SELECT position, units(position) AS u, cost(position) AS c, balance FROM #postings', 'SELECT account, sum(position) AS s, count(*) AS n, NULL AS z FROM #postings GROUP BY account',
+    'SELECT 1 AS i, 1.5 AS d, "s" AS s, 2020-01-01 AS dt, TRUE AS b, NULL AS z', 'SELECT meta("note") AS o, number > 0 AS b FROM #postings',
+]
+
+
+def run_description_case(ctx, rng, n, mon):
+    """SELECT * FROM (q), at one and two levels, describes q's columns as q does: names AND datatypes (NULL-typed, object-typed and
+    structured ones included), and delivers q's rows."""
+    led = ledgers.gen_ledger(rng, ntxn=rng.randint(3, 8), with_queries=False)
+    conn = engine.connection(ledger=led.loaded)
+    for inner in DESCRIPTION_INNERS:
+        case = {'replay': ['description', n], 'statement': inner, 'ledger': led.text}
+        try:
+            cur = conn.execute(inner)
+            desc0, rows0 = [(d.name, d.datatype) for d in cur.description], cur.fetchall()
+        except Exception as exc:  # noqa: BLE001
+            ctx.count('skipped.inner_failed')
+            continue
+        for text in (f'SELECT * FROM ({inner})', f'SELECT * FROM (SELECT * FROM ({inner}))'):
+            try:
+                cur = conn.execute(text)
+                desc1, rows1 = [(d.name, d.datatype) for d in cur.description], cur.fetchall()
+            except Exception as exc:  # noqa: BLE001
+                ctx.violation(f'c08.wildcard_over_subquery_failed.{monitors.classify_exception(exc)}', f'{text}: {type(exc).__name__}: {exc}', dict(case, statement=text))
+                continue
+            ctx.count('obs.description_cases')
+            ctx.case(('description', text, n), True)
+            if desc1 != desc0:
+                ctx.violation('c08.wildcard_over_subquery_description', f'{text}: described as {[(a, getattr(b, "__name__", b)) for a, b in desc1]}; the sub-query itself as '
+                              f'{[(a, getattr(b, "__name__", b)) for a, b in desc0]}', dict(case, statement=text))
+            elif not same_rows(rows1, rows0):
+                ctx.violation('c08.wildcard_over_subquery_rows', f'{text}: rows differ from the rows of the sub-query itself', dict(case, statement=text))
+
+
 def run(ctx):
     mon = monitors.install()
     # the parts are interleaved: under a time cut-off every part has had its share
-    parts = [('cursor', run_cursor_case, ctx.pick(12, 300)), ('same-text', run_same_text_case, ctx.pick(60, 1500)), ('ledger', run_ledger_case, ctx.pick(12, 200)),
+    parts = [('description', run_description_case, ctx.pick(2, 40)), ('cursor', run_cursor_case, ctx.pick(12, 300)), ('same-text', run_same_text_case, ctx.pick(60, 1500)), ('ledger', run_ledger_case, ctx.pick(12, 200)),
              ('from', run_from_case, ctx.pick(500, 9000)), ('in', run_in_case, ctx.pick(500, 9000))]
     top = max(n for _, _, n in parts)
     for n in range(top):
@@ -562,7 +599,7 @@ def run(ctx):
 def replay(ctx, case):
     mon = monitors.install()
     part, n = case['replay']
-    {'from': run_from_case, 'in': run_in_case, 'ledger': run_ledger_case, 'same-text': run_same_text_case, 'cursor': run_cursor_case}[part](ctx, ctx.rng(part, n), n, mon)
+    {'description': run_description_case, 'from': run_from_case, 'in': run_in_case, 'ledger': run_ledger_case, 'same-text': run_same_text_case, 'cursor': run_cursor_case}[part](ctx, ctx.rng(part, n), n, mon)
 
 
 def finalize(merged):
